@@ -355,7 +355,8 @@ var (
 	vSchedEndHook   func()
 	vYieldHook      func(skip int) bool
 )
-func vAtomicEnd()                           {}
+
+func vAtomicEnd() {}
 
 // vLiveGoroutines counts live goroutines created by functions of packages with the prefix
 // (harness overlay functions excluded).
